@@ -4,6 +4,7 @@ use crate::ctx::{Ctx, Outcome};
 use crate::wire::*;
 use rand::Rng;
 use std::collections::BTreeMap;
+use std::sync::Arc;
 use std::io::Write;
 use text_utils::data::loading::{train_data_generator_from_jsonl, BatchLimitType, GenerationStrategy, ItemSize, MultiTrainDataGenerator};
 use text_utils::data::postprocessing::PostprocessingFnConfig;
@@ -392,6 +393,9 @@ pub fn exec(op: &str, a: &[u64]) -> Result<Outcome, String> {
     if op == "batch" {
         return crate::props::batch::exec(op, a);
     }
+    if op == "selectstall" {
+        return exec_stall(a);
+    }
     if op != "select" {
         return Err(format!("unknown op {op}"));
     }
@@ -479,6 +483,49 @@ pub fn exec(op: &str, a: &[u64]) -> Result<Outcome, String> {
         }
     }
     o.check(base.min_items.is_some(), "min_items not set");
+    Ok(o)
+}
+
+/// `selectstall ms k <select request>`: the loader of the request with at least one worker thread, while the worker
+/// that processed the item with index `k` (position in the loader's own stream) is held up for `ms` milliseconds of
+/// wall time at the schedule point after the computation (the consumer waits in `next()` that long, the other workers
+/// wait for their turn).  Items and batches must be those of the unthreaded loader.
+fn exec_stall(a: &[u64]) -> Result<Outcome, String> {
+    if a.len() < 2 {
+        return Err("short request".into());
+    }
+    let (ms, k) = (a[0], a[1] as usize);
+    let mut r = Rd::new(&a[2..]);
+    let c = rd_cfg(&mut r)?;
+    let _invalid = r.nats()?;
+    r.end()?;
+    if c.world == 0 || c.rank >= c.world {
+        return Err("bad rank / world size".into());
+    }
+    let order = global_order(&c)?;
+    let unthreaded = run_loader(&Cfg { threads: 0, buffer: 0, ..c.clone() }, &order)?;
+    let fired = Arc::new(std::sync::atomic::AtomicBool::new(false));
+    let f2 = fired.clone();
+    text_utils::verif::install(Some(Arc::new(move |comp, _w, label, idx, _flag| {
+        if comp == "pipe" && label == "computed" && idx == k && !f2.swap(true, std::sync::atomic::Ordering::SeqCst) {
+            std::thread::sleep(std::time::Duration::from_millis(ms));
+        }
+    })));
+    let stalled = run_loader(&Cfg { threads: c.threads.max(1), ..c.clone() }, &order);
+    text_utils::verif::install(None);
+    let stalled = stalled?;
+    let as_ids = |r: &RunOut| r.batches.iter().map(|b| b.iter().map(|x| (x.0, x.2.clone())).collect::<Vec<_>>()).collect::<Vec<_>>();
+    let mut idx: Vec<u64> = stalled.batches.iter().flatten().map(|x| x.0).collect();
+    idx.sort();
+    let mut v = vec![];
+    enc_nats(&mut v, idx.iter().copied());
+    v.push(stalled.min_items.unwrap_or(0) as u64);
+    let mut o = Outcome::new(ok(v));
+    o.check(as_ids(&stalled) == as_ids(&unthreaded), "items or batches depend on how long a worker thread takes (a stalled worker: the stream ended early, lost items or cut a batch short)");
+    let n_items: usize = unthreaded.batches.iter().map(|b| b.len()).sum();
+    if n_items > k {
+        o.check(fired.load(std::sync::atomic::Ordering::SeqCst), "the stalled schedule point was never reached");
+    }
     Ok(o)
 }
 
@@ -571,6 +618,28 @@ pub fn run_c08(ctx: &mut Ctx) {
                 }
                 ctx.case("batch", &v);
             }
+        }
+    }
+    // a worker that is held up for several seconds of wall time (once per run)
+    if ctx.first_shard() {
+        let stalls: &[(u64, u64)] = if ctx.thorough { &[(6500, 3), (11000, 9)] } else { &[(6500, 3)] };
+        for &(ms, k) in stalls {
+            let mut c = rand_cfg(ctx);
+            c.lens = vec![9, 7];
+            c.bad = 0;
+            c.skip = 0;
+            c.limit = None;
+            c.ff = 0;
+            c.rank = 0;
+            c.world = 1;
+            c.threads = 2;
+            c.buffer = 2;
+            c.prep = 1;
+            c.batch_limit = 3;
+            c.seed_none = false;
+            let mut v = vec![ms, k];
+            v.extend(enc_select(&c));
+            ctx.case("selectstall", &v);
         }
     }
     std::fs::remove_dir_all(tmp()).ok();
